@@ -20,6 +20,12 @@ MANIFEST = dict(
 )
 
 
+def bookkeeping(clause: str) -> bool:
+    """Clauses TLC reports for the record only (counted in the evidence): a probe mutation that changed nothing
+    or raised, an operator that refused its operands, the content of a Keyvalues sum, fields outside the schema."""
+    return clause == 'noeffect' or clause.startswith('note.')
+
+
 def sig_of(m: dict) -> dict:
     rec = m['rec']
     sig = dict(rec.get('sig', {}))
@@ -133,11 +139,15 @@ def run(tier: str, seed: int) -> int:
         allm = []
         total = 0
         vac = 0
+        notes: dict = {}
         samples = []
         for p in recs:
             mism, vst = core.validate_records('AliasTrace', 'AliasTrace.cfg', p, work=work, timeout=3000)
             vac += sum(1 for m in mism if m['clause'] == 'noeffect')
-            allm += [m for m in mism if m['clause'] != 'noeffect']
+            for m in mism:
+                if m['clause'].startswith('note.'):
+                    notes[m['clause']] = notes.get(m['clause'], 0) + 1
+            allm += [m for m in mism if not bookkeeping(m['clause'])]
             total += vst['records']
             cov['states'] += vst['states']
             cov['transitions'] += vst['transitions']
@@ -149,6 +159,10 @@ def run(tier: str, seed: int) -> int:
         cov['traces_validated_against_impl'] = total
         cov['records_validated'] = total
         cov['mutations_without_effect'] = vac
+        cov['notes_not_verdicts'] = notes
+        if (notes.get('note.binop.raised', 0) * 2 > cov['operator_runs']
+                or (notes.get('note.mutate.raised', 0) + vac) * 10 > total):
+            raise MachineryError(f'too many probes raised / had no effect to call the run meaningful: {notes}, noeffect={vac}')
         cov['mismatches'] = len(allm)
         cov['samples'] = samples
         cov['exhaustive'] = True
@@ -203,7 +217,7 @@ def replay(path: str) -> int:
             return 1 if bad else 0
         core.run_driver('c09_driver.py', ['replay', path, out])
         mism, _ = core.validate_records('AliasTrace', 'AliasTrace.cfg', out, work=work, shards=1)
-        known, new = core.classify(PROP, [sig_of(m) for m in mism if m['clause'] != 'noeffect'])
+        known, new = core.classify(PROP, [sig_of(m) for m in mism if not bookkeeping(m['clause'])])
         for s in new:
             print(f'VIOLATION property={PROP} replay={path} clause={s["clause"]} what={s["what"]}')
         if not new:
